@@ -203,6 +203,7 @@ func runC07(c *Ctx, tier string) {
 	runFilterPushdownKept(c, "C07-D8")
 	runSortFieldPairing(c, "C07-D9", "C07-N2")
 	runSortKeyOverlap(c, "C07-K2")
+	runMergeOrderNeedsSortedParents(c, "C07-M1")
 	c.Rule("C07-F1", "a predicate pushed into a scan becomes a prefilter that over-approximates it (= C04-F1): the and/or composition of CompileBufferFilter keeps a one-sided sub-filter only under `and`")
 	c.borrow(func(t *Ctx) { runC04F1(t) }, map[string]string{"C04-F1": "C07-F1"})
 	// D2
@@ -461,6 +462,7 @@ func runC08(c *Ctx, tier string) {
 	c.borrow(func(t *Ctx) { runC07(t, "quick") }, map[string]string{"C07-D5": "C08-D5", "C07-N2": "C08-N2", "C07-D9": "C08-D9", "C07-K2": "C08-K2"})
 	runSplitSummarizeTailKeys(c, "C08-D4")
 	runPartialOutputForm(c, "C08-P4")
+	runLiftedSortSingleKey(c, "C08-M2")
 	c.Rule("C08-N1", "the merge that recombines scan legs orders nulls like the lake does (= C16-N1: comparators on the lake path are built with nullsMax = true)")
 	checkNullsMax(c, "C08-N1")
 	c.Rule("C08-N2", "a sort is split into per-leg sorts and a merge only after its null placement was consulted (= C07-N2)")
